@@ -888,3 +888,47 @@ func c20oneCellPerAtom(c *an.Ctx) {
 	}
 	f.Precedes(r, app, build, an.OrderOpt{Label: "literal appended ≺ atom built"})
 }
+
+func init() {
+	old := All["C20"].Run
+	All["C20"].Run = func(c *an.Ctx) {
+		old(c)
+		c20noReaderAlwaysPrunes(c)
+	}
+	All["C20"].Rules += " R13"
+	addLevel("C20", "no skip-index reader answers 'cannot match' unconditionally (a reader that cannot decide must keep the fragment).")
+}
+
+// c20noReaderAlwaysPrunes — C20.R13.  SKIndexReaderImpl.Scan drops a fragment when the reader of
+// the index answers false.  A reader whose MayBeInFragment is the constant false prunes every
+// fragment of every file: a query with a condition on the indexed column returns nothing.
+func c20noReaderAlwaysPrunes(c *an.Ctx) {
+	const S = "engine/index/sparseindex"
+	r := c.Rule("C20.R13", "K-CONTRACT(siblings)", S+": no implementation of SKFileReader.MayBeInFragment returns the constant false on every path")
+	n := 0
+	for _, d := range c.P.AllDecls() {
+		if !an.InPkg(d, S) || d.Obj.Name() != "MayBeInFragment" || d.Decl.Recv == nil {
+			continue
+		}
+		n++
+		info := d.Pkg.TypesInfo
+		rets, allFalse := 0, true
+		ast.Inspect(d.Decl.Body, func(m ast.Node) bool {
+			if _, isLit := m.(*ast.FuncLit); isLit {
+				return false
+			}
+			if rs, ok := m.(*ast.ReturnStmt); ok && len(rs.Results) == 2 {
+				rets++
+				if !an.IsBoolLit(info, rs.Results[0], false) {
+					allFalse = false
+				}
+			}
+			return true
+		})
+		if rets > 0 && allFalse {
+			r.Fail(d.Name()+": always 'cannot match'", c.P.Pos(d.Decl.Pos()), "%s answers false for every fragment: the skip-index scan prunes every fragment of every file for a condition on a column with this index", d.Name())
+		}
+	}
+	r.AddSites(n)
+	r.Floor(4, "implementations of MayBeInFragment")
+}
